@@ -74,6 +74,46 @@ pub struct TokenInfo {
 unsafe impl Send for TokenInfo {}
 unsafe impl Sync for TokenInfo {}
 
+
+/* Case mapping can change the byte length of a character ('İ' becomes 'i̇', 'ŉ' becomes 'ʼN'). The parsers that search a
+   lower- or upper-cased copy of the line get, for every byte of the copy, the byte offset of the character it comes from. */
+pub fn map_case(data: &str, uppercase: bool) -> (String, Vec<usize>) {
+    let mut mapped  = String::with_capacity(data.len());
+    let mut offsets = Vec::with_capacity(data.len());
+
+    for (index, ch) in data.char_indices() {
+        let before = mapped.len();
+        match uppercase {
+            true  => mapped.extend(ch.to_uppercase()),
+            false => mapped.extend(ch.to_lowercase())
+        };
+
+        for _ in before..mapped.len() {
+            offsets.push(index);
+        }
+    }
+
+    (mapped, offsets)
+}
+
+/* Span of the line that the span [start, end) of its case-mapped copy comes from (whole characters) */
+pub fn original_range(data: &str, offsets: &[usize], start: usize, end: usize) -> (usize, usize) {
+    let original_start = match offsets.get(start) {
+        Some(offset) => *offset,
+        None => data.len()
+    };
+
+    let original_end = match end.checked_sub(1).and_then(|last| offsets.get(last)) {
+        Some(offset) => match data[*offset..].chars().next() {
+            Some(ch) => *offset + ch.len_utf8(),
+            None => data.len()
+        },
+        None => original_start
+    };
+
+    (original_start, original_end)
+}
+
 impl<'a> Tokinizer<'a> {
     pub fn new(config: &'a SmartCalcConfig, session: &'a Session) -> Tokinizer<'a> {
         Tokinizer {
@@ -160,6 +200,24 @@ impl<'a> Tokinizer<'a> {
 
     pub fn add_uitoken_from_match(&mut self, capture: Option<Match<'_>>, token_type: UiTokenType) {
         self.ui_tokens.add_from_regex_match(capture, token_type)
+    }
+
+    /* The match was found in a case-mapped copy of the line: its span is translated back into the line */
+    pub fn add_token_from_mapped_match<'t>(&mut self, capture: &Option<Match<'t>>, offsets: &[usize], token_type: Option<TokenType>) -> bool {
+        match capture {
+            Some(content) => {
+                let (start, end) = original_range(&self.data, offsets, content.start(), content.end());
+                self.add_token_location(start, end, token_type, content.as_str().to_string())
+            },
+            None => false
+        }
+    }
+
+    pub fn add_uitoken_from_mapped_match(&mut self, capture: Option<Match<'_>>, offsets: &[usize], token_type: UiTokenType) {
+        if let Some(content) = capture {
+            let (start, end) = original_range(&self.data, offsets, content.start(), content.end());
+            self.ui_tokens.add_from_byte_range(start, end, token_type);
+        }
     }
 
     pub fn add_token_location(&mut self, start: usize, end: usize, token_type: Option<TokenType>, text: String) -> bool {
